@@ -392,6 +392,9 @@ def entry_points(tree: ast.Module) -> tuple[list[tuple[str, str, str, str]], lis
     return out, unread
 
 
+FSYS = ('fsys',)
+
+
 def _make_entry_class():
     from translate import c18_ops
 
@@ -405,30 +408,38 @@ def _make_entry_class():
 
         def init_env(self):
             env = super().init_env()
-            if self.cls == 'File':
-                env['self'] = frozenset([c18_ops.HANDLE])
+            # `self` is the file system in FileSystem's methods, the handle in File's (whose `.sys` is the file system)
+            env['self'] = frozenset([FSYS]) if self.cls == 'FileSystem' else frozenset([c18_ops.HANDLE])
             return env
+
+        def ev(self, n, env):
+            if isinstance(n, ast.Attribute) and n.attr == 'sys' and self.ev(n.value, env) == frozenset([c18_ops.HANDLE]):
+                return frozenset([FSYS])
+            if isinstance(n, ast.Name) and n.id == 'self':
+                return env.get('self', frozenset([c18_ops.OTHER]))
+            return super().ev(n, env)
 
         def call(self, n: ast.Call, env: dict):
             f = n.func
-            if isinstance(f, ast.Attribute) and f.attr in self.members and not f.attr.startswith('__'):
-                recv = _dotted(f.value)
-                if (self.cls == 'FileSystem' and recv == 'self') or (self.cls == 'File' and recv == 'self.sys'):
-                    args = list(n.args) + [k.value for k in n.keywords]
-                    if not args:
-                        self.calls.append((f.attr, 'PArg'))
-                    else:
-                        vals = self.ev(args[0], env)
-                        for a in args[1:]:
+            if isinstance(f, ast.Attribute) and f.attr in self.members and not f.attr.startswith('__') \
+                    and self.ev(f.value, env) == frozenset([FSYS]):
+                args = list(n.args) + [k.value for k in n.keywords]
+                if not args:
+                    self.calls.append((f.attr, 'PArg'))
+                else:
+                    first = n.args[0] if n.args else n.keywords[0].value
+                    vals = self.ev(first, env)
+                    for a in args:
+                        if a is not first:
                             self.ev(a, env)
-                        for v in sorted(vals):
-                            if v[0] == 'str':
-                                self.calls.append((f.attr, v[1]))
-                            elif v == c18_ops.HANDLE:
-                                self.calls.append((f.attr, 'PHandleData'))     # the handle goes on as it is
-                            else:
-                                self.fail(n, f'argument of {f.attr} is not a recognised expression')
-                    return frozenset([c18_ops.HANDLE]) if f.attr == '_get_file' else frozenset([c18_ops.OTHER])
+                    for v in sorted(vals):
+                        if v[0] == 'str':
+                            self.calls.append((f.attr, v[1]))
+                        elif v == c18_ops.HANDLE:
+                            self.calls.append((f.attr, 'PHandleData'))     # the handle goes on as it is
+                        else:
+                            self.fail(n, f'argument of {f.attr} is not a recognised expression')
+                return frozenset([c18_ops.HANDLE]) if f.attr == '_get_file' else frozenset([c18_ops.OTHER])
             return super().call(n, env)
     return Entry
 
